@@ -45,13 +45,18 @@ def workload(mod, tier, seed):
         if tier == "thorough":
             for sub in range(1, int(getattr(mod, "THOROUGH_PASSES", 6))):
                 yield from mod.gen_cases(tier, int(seed) + 7919 * sub)
+    from .gen import pick
+
     for i, case in enumerate(stream()):
-        if npint and (i + int(seed)) % 4 == 3:
+        # the argument form of a case is drawn from a mixed hash of its position (not position modulo 4 / 8: a generator that emits its
+        # kinds of case with a period sharing a factor with 4 would give some kind the same form under every seed)
+        h = pick({"cseed": i * 1000003 + int(seed)}) % 8
+        if npint and h in (3, 7):
             case["npint_args"] = True          # see core.Ctx.begin
-        if strided and (i + int(seed)) % 4 == 1:
+        if strided and h in (1, 5):
             case["strided_args"] = True
-        if seqargs and (i + int(seed)) % 8 in (2, 6):
-            case["seq_args"] = "list" if (i + int(seed)) % 8 == 2 else "tuple"
+        if seqargs and h in (2, 6):
+            case["seq_args"] = "list" if h == 2 else "tuple"
         yield case
 
 
